@@ -198,6 +198,54 @@ def init_view(run, prefix='D0'):
     run.D0 = dict(run.ghost)
 
 
+def init_view_bounded(it, ntrials, nops, bound=2, study_may_be_missing=True):
+    """Bounded model-query mode (DESIGN 2.5): an explicit finite datastore view -- one study, `ntrials` trials with
+    ids 1..ntrials in arbitrary states, `nops` suggestion operations 1..nops of the client under test.  Everything
+    is quantifier-free, so the solver gives definite sat/unsat and a replayable model."""
+    run = it.run
+    run.bounded = bound
+    T, ST, OP, EO = S_TRIAL(), S_STUDY(), S_OP(), S_EOP()
+    o, s_, c = z3.Const('b_owner', Str), z3.Const('b_study', Str), z3.Const('b_client', Str)
+    run.assume(valid_comp(o))
+    run.assume(valid_comp(s_))
+    sk = Name.study(o, s_)
+    run.assume(parse(mkname(sk)) == sk)
+    study0 = z3.Const('b_study0', pm.msg_sort(ST))
+    run.assume(z3.And(acc(ST, 'name')(study0) == mkname(sk), acc(ST, 'display_name')(study0) == s_,
+                      acc(ST, 'state')(study0) >= 0, acc(ST, 'state')(study0) <= 3))
+    has_study = z3.Bool('b_has_study') if study_may_be_missing else z3.BoolVal(True)
+    Dst = z3.K(Name, none(ST))
+    run.ghost['D.study'] = z3.If(has_study, z3.Store(Dst, sk, some(ST, study0)), Dst)
+    Dt = z3.K(Name, none(T))
+    keys = []
+    for i in range(ntrials):
+        k = Name.trial(o, s_, z3.IntVal(i + 1))
+        t = z3.Const('b_trial%d' % (i + 1), pm.msg_sort(T))
+        run.assume(z3.And(acc(T, 'name')(t) == mkname(k), parse(mkname(k)) == k, acc(T, 'id')(t) == M.int2str(z3.IntVal(i + 1)),
+                          M.str2int(M.int2str(z3.IntVal(i + 1))) == i + 1, M.is_int_str(M.int2str(z3.IntVal(i + 1))),
+                          acc(T, 'state')(t) >= 1, acc(T, 'state')(t) <= 5,
+                          acc(T, 'measurements__len')(t) >= 0, acc(T, 'parameters__len')(t) >= 0, acc(T, 'metadata__len')(t) >= 0))
+        Dt = z3.Store(Dt, k, some(T, t))
+        keys.append(k)
+    run.ghost['D.trial'] = z3.If(has_study, Dt, z3.K(Name, none(T)))
+    Ds = z3.K(Name, none(OP))
+    okeys = []
+    for i in range(nops):
+        k = Name.sop(o, s_, c, z3.IntVal(i + 1))
+        op = z3.Const('b_op%d' % (i + 1), pm.msg_sort(OP))
+        run.assume(z3.And(acc(OP, 'name')(op) == mkname(k), parse(mkname(k)) == k))
+        Ds = z3.Store(Ds, k, some(OP, op))
+        okeys.append(k)
+    run.ghost['D.sop'] = z3.If(has_study, Ds, z3.K(Name, none(OP)))
+    run.ghost['D.eop'] = z3.K(Name, none(EO))
+    run.ghost['D.seq'] = z3.K(Name, z3.IntVal(0))
+    run.ghost['D.next'] = z3.IntVal(ntrials + nops + 1)
+    run.tables = {'trials': list(keys), 'sops': list(okeys), 'sk': sk, 'client': c, 'has_study': has_study,
+                  'trials0': list(keys), 'sops0': list(okeys), 'owner': o, 'study': s_}
+    run.D0 = dict(run.ghost)
+    return sk, c
+
+
 def some(sch, t):
     return pm.option_sort(sch).some(t)
 
@@ -226,8 +274,7 @@ def inv_trial_at(D, k):
         acc(T, 'name')(t) == mkname(k), parse(mkname(k)) == k,
         acc(T, 'id')(t) == M.int2str(Name.t2(k)), M.str2int(M.int2str(Name.t2(k))) == Name.t2(k),
         st >= 1, st <= 5,
-        is_some(ST, D['D.study'][study_of_trial(k)]),
-        D['D.seq'][k] < D['D.next']))
+        is_some(ST, D['D.study'][study_of_trial(k)])))
 
 
 def inv_study_at(D, k):
@@ -235,8 +282,7 @@ def inv_study_at(D, k):
     o = D['D.study'][k]
     s = val(ST, o)
     return z3.Implies(is_some(ST, o), z3.And(Name.is_study(k), wf(k), acc(ST, 'name')(s) == mkname(k), parse(mkname(k)) == k,
-                                            acc(ST, 'display_name')(s) == Name.s1(k),
-                                            D['D.seq'][k] < D['D.next']))
+                                            acc(ST, 'display_name')(s) == Name.s1(k)))
 
 
 def inv_sop_at(D, k):
@@ -245,7 +291,7 @@ def inv_sop_at(D, k):
     return z3.Implies(is_some(OP, o), z3.And(Name.is_sop(k), wf(k), Name.n3(k) >= 1, acc(OP, 'name')(val(OP, o)) == mkname(k),
                                             parse(mkname(k)) == k,
                                             is_some(ST, D['D.study'][Name.study(Name.o3(k), Name.s3(k))]),
-                                            D['D.seq'][k] < D['D.next']))
+                                            is_some(OP, D['D.sop'][Name.sop(Name.o3(k), Name.s3(k), Name.c3(k), z3.IntVal(1))])))
 
 
 def inv_eop_at(D, k):
@@ -266,6 +312,8 @@ def inst_inv(it, k):
     if key in run.instantiated:
         return
     run.instantiated.add(key)
+    if run.bounded:
+        return
     run.assume(inv_at(run.D0, k))
     run.keys_seen = getattr(run, 'keys_seen', []) + [k]
     for fact in getattr(run, 'key_facts', []):
@@ -453,6 +501,12 @@ def ds_list_trials(it, args, kw):
     if not it.truth(is_some(S_STUDY(), run.ghost['D.study'][n])):
         raise not_found(it, 'study')
     T = S_TRIAL()
+    if run.bounded:
+        out = []
+        for k_ in run.tables['trials']:
+            if it.truth(z3.And(study_of_trial(k_) == n, is_some(T, run.ghost['D.trial'][k_]))):
+                out.append(Msg.from_term(T, val(T, run.ghost['D.trial'][k_])))
+        return out
     L = _fresh_list(it, T, 'trials')
     L.list_of = ('trials', n, dict(run.ghost))
     i, j = z3.Int('i!lt'), z3.Int('j!lt')
@@ -508,6 +562,8 @@ def ds_create_trial(it, args, kw):
     if it.truth(is_some(S_TRIAL(), run.ghost['D.trial'][n])):
         raise already_exists(it, 'trial')
     run.ghost['D.trial'] = z3.Store(run.ghost['D.trial'], n, some(S_TRIAL(), t.pack()))
+    if run.bounded:
+        run.tables['trials'].append(n)
     run.ghost['D.seq'] = z3.Store(run.ghost['D.seq'], n, run.ghost['D.next'])
     run.ghost['D.next'] = run.ghost['D.next'] + 1
     return Obj(res_class('TrialResource'), {'owner_id': Name.o2(n), 'study_id': Name.s2(n), 'trial_id': Name.t2(n)})
@@ -542,6 +598,11 @@ def max_id_of(it, n):
     """ghost: the largest trial id of study n in the current view (0 if none)."""
     run = it.run
     T = S_TRIAL()
+    if run.bounded:
+        m = z3.IntVal(0)
+        for k_ in run.tables['trials']:
+            m = z3.If(z3.And(study_of_trial(k_) == n, is_some(T, run.ghost['D.trial'][k_]), Name.t2(k_) > m), Name.t2(k_), m)
+        return m
     m = run.fresh('max_id', z3.IntSort())
     k = z3.Const('k!mx', Name)
     Dt = run.ghost['D.trial']
@@ -570,6 +631,8 @@ def ds_create_sop(it, args, kw):
     if it.truth(is_some(S_OP(), run.ghost['D.sop'][n])):
         raise already_exists(it, 'operation')
     run.ghost['D.sop'] = z3.Store(run.ghost['D.sop'], n, some(S_OP(), op.pack()))
+    if run.bounded:
+        run.tables['sops'].append(n)
     run.ghost['D.seq'] = z3.Store(run.ghost['D.seq'], n, run.ghost['D.next'])
     run.ghost['D.next'] = run.ghost['D.next'] + 1
     return Obj(res_class('SuggestionOperationResource'), {'owner_id': Name.o3(n), 'study_id': Name.s3(n), 'client_id': Name.c3(n),
@@ -623,6 +686,14 @@ def ds_list_sops(it, args, kw):
     # the (study, client) pair exists iff operation number 1 exists (numbers are 1..k without gaps: Inv (4))
     if not it.truth(is_some(OP, Ds[sop_of(n, c, z3.IntVal(1))])):
         raise not_found(it, '(study, client)')
+    if run.bounded:
+        out = []
+        for k_ in run.tables['sops']:
+            if it.truth(z3.And(Name.c3(k_) == c, Name.study(Name.o3(k_), Name.s3(k_)) == n, is_some(OP, Ds[k_]))):
+                op_ = Msg.from_term(OP, val(OP, Ds[k_]))
+                if flt is None or it.truth(it.call(flt, [op_], {})):
+                    out.append(op_)
+        return out
     L = _fresh_list(it, OP, 'sops')
     i, j = z3.Int('i!lo'), z3.Int('j!lo')
     k = z3.Const('k!lo', Name)
@@ -659,10 +730,16 @@ def ds_max_sop_number(it, args, kw):
     Ds = run.ghost['D.sop']
     if not it.truth(is_some(OP, Ds[sop_of(n, c, z3.IntVal(1))])):
         raise not_found(it, '(study, client)')
+    if run.bounded:
+        m = z3.IntVal(0)
+        for k_ in run.tables['sops']:
+            m = z3.If(z3.And(Name.c3(k_) == c, Name.study(Name.o3(k_), Name.s3(k_)) == n, is_some(OP, Ds[k_]), Name.n3(k_) > m), Name.n3(k_), m)
+        return m
     m = run.fresh('max_op', z3.IntSort())
     num = z3.Int('num!mo')
     run.assume(m >= 1)
     run.assume(is_some(OP, Ds[sop_of(n, c, m)]))
+    inst_inv(it, sop_of(n, c, m))
     run.axiom(z3.ForAll([num], z3.Implies(is_some(OP, Ds[sop_of(n, c, num)]), z3.And(num >= 1, num <= m))))
     run.assume(z3.Not(is_some(OP, Ds[sop_of(n, c, m + 1)])))
     return m
@@ -760,6 +837,11 @@ def ds_update_metadata(it, args, kw):
         raise not_found(it, 'study')
     smd = M.to_symlist(it, smd, KV)
     tmd = M.to_symlist(it, tmd, UMU)
+    if run.bounded and z3.is_int_value(z3.simplify(smd.n + tmd.n)) and z3.simplify(smd.n + tmd.n).as_long() == 0:
+        # bounded model query: an empty metadata delta leaves the (sorted, unique) stored metadata as it is
+        run.md_update = None
+        run.md_noop = True
+        return None
     # every named trial must exist; otherwise NotFoundError (a KeyError) and D unchanged
     j = z3.Int('j!um')
     tid_ok = lambda u: z3.And(M.is_int_str(acc(UMU, 'trial_id')(u)), M.str2int(acc(UMU, 'trial_id')(u)) >= 1,
